@@ -12,11 +12,11 @@ def run(ctx):
                 "one endmarker, last; receive/second setcallback refused; callback unregistered <=> requested endmarker delivered; (c) scenarios: setcallback after "
                 "0-5 received items at a random moment relative to in-flight items, endings by exec end / close / connection loss, channel kept or dropped: "
                 "received-before ++ callback items == sent, endmarker exactly once and last, no callback left registered")
-    netprops.op_level(ctx, res, PROP, ctx.budget(400, 4000, 600))
+    netprops.op_level(ctx, res, PROP, ctx.budget(400, 24000, 600))
     # two-step receive (get … put the ENDMARKER back) against Model/NetFine.lean, guarded and unguarded histories
-    netfine.fine_level(ctx, res, PROP, ctx.budget(80, 2500, 300))
-    netprops.run_scenarios(ctx, res, netprops.scenario_streams, ctx.budget(150, 6000, 500), "streams-cb", with_callbacks=True)
-    netprops.run_scenarios(ctx, res, netprops.scenario_cut, ctx.budget(60, 2000, 200), "cut")
+    netfine.fine_level(ctx, res, PROP, ctx.budget(80, 15000, 300))
+    netprops.run_scenarios(ctx, res, netprops.scenario_streams, ctx.budget(150, 36000, 500), "streams-cb", with_callbacks=True)
+    netprops.run_scenarios(ctx, res, netprops.scenario_cut, ctx.budget(60, 12000, 200), "cut")
     netprops.process_level_multichannel(ctx, res, ngw=2 if not ctx.thorough else 3)
     return res
 
